@@ -32,7 +32,7 @@ ASSUMPTIONS = ["differential oracle: the baseline configuration itself is judged
                "makes the schedule part inconclusive"]
 FLOORS = {'quick': {'span-func': 1500, 'evaluator2': 400, 'unnormalized': 1500, 'num_procs': 40, 'cache-size': 12, 'ops-kwargs': 100},
           'thorough': {'span-func': 15000, 'unnormalized': 15000, 'num_procs': 300, 'cache-size': 60}}
-MANDATORY_TAGS = ['span:binary', 'evaluator2', 'range:[2.0, 5.0]', 'range:[-3.0, 7.5]', 'procs:2', 'procs:4', 'procs:8', 'voxelize-mp',
+MANDATORY_TAGS = ['span:binary', 'evaluator2', 'range:per-direction', 'range:[2.0, 5.0]', 'range:[-3.0, 7.5]', 'procs:2', 'procs:4', 'procs:8', 'voxelize-mp',
                   'tessellate-mp', 'cache:1', 'cache:16', 'cache:1024', 'curve', 'surface', 'volume']
 TECHNIQUE = ("runtime monitoring: cross-configuration differential oracle (same seeded query under each configuration, digests "
              "compared), event-log schedule checker for the multiprocessing pools, separate-interpreter runs for the environment-"
@@ -82,12 +82,14 @@ def amap(u, lohi):
     return lo + (hi - lo) * u
 
 
-def queries(o, sd_base, prms, lohi, ops_kw, rng_seed):
+def queries(o, sd_base, prms, lohis, ops_kw, rng_seed):
     """run the fixed battery of queries on object o (knot range lohi); parameters given for the [0,1] baseline are mapped affinely.
     Returns dict name -> result (floats); derivative vectors are rescaled by (b-a)^k so that all configurations are comparable."""
     from geomdl import operations
     pdim = o.pdimension
-    L = lohi[1] - lohi[0]
+    if isinstance(lohis[0], (int, float)):
+        lohis = [tuple(lohis)] * pdim
+    Ls = [b - a for a, b in lohis]
     R = {}
 
     def rec(name, fn):
@@ -96,13 +98,13 @@ def queries(o, sd_base, prms, lohi, ops_kw, rng_seed):
         except Exception as e:
             R[name] = 'EXC:%s' % type(e).__name__
     for k, prm in enumerate(prms):
-        q = [amap(u, lohi) for u in prm]
+        q = [amap(u, lohis[d_]) for d_, u in enumerate(prm)]
         rec('eval%d' % k, lambda: list(G.evaluate_single(o, q)))
         if pdim == 1:
-            rec('ders%d' % k, lambda: [[c * (L ** i) for c in v] for i, v in enumerate(o.derivatives(q[0], 2))])
+            rec('ders%d' % k, lambda: [[c * (Ls[0] ** i) for c in v] for i, v in enumerate(o.derivatives(q[0], 2))])
             rec('findcp%d' % k, lambda: [list(p) for p in operations.find_ctrlpts(o, q[0], **ops_kw)])
         elif pdim == 2:
-            rec('ders%d' % k, lambda: [[[c * (L ** (i + j)) for c in o_] for j, o_ in enumerate(row) if i + j <= 2]
+            rec('ders%d' % k, lambda: [[[c * (Ls[0] ** i) * (Ls[1] ** j) for c in o_] for j, o_ in enumerate(row) if i + j <= 2]
                                        for i, row in enumerate(o.derivatives(q[0], q[1], 2))])
     ss = {1: 9, 2: 5, 3: 3}[pdim]
     o.sample_size = ss
@@ -112,7 +114,7 @@ def queries(o, sd_base, prms, lohi, ops_kw, rng_seed):
         def tess():
             o.tessellate()
             return [[list(v.data) for v in o.vertices], [list(f.data) for f in o.faces],
-                    [[(c - lohi[0]) / L for c in v.uv] for v in o.vertices]]
+                    [[(c - lohis[d_][0]) / Ls[d_] for d_, c in enumerate(v.uv)] for v in o.vertices]]
         rec('tessellate', tess)
     # structure-changing operations on copies
     r = random.Random(rng_seed)
@@ -126,7 +128,7 @@ def queries(o, sd_base, prms, lohi, ops_kw, rng_seed):
         c = copy.deepcopy(o)
         p = [None] * pdim
         n = [0] * pdim
-        p[d], n[d] = amap(u0, lohi), 1
+        p[d], n[d] = amap(u0, lohis[d]), 1
         operations.insert_knot(c, p, n)
         return G.hom_pts_of(c)
     rec('insert', ins)
@@ -136,12 +138,12 @@ def queries(o, sd_base, prms, lohi, ops_kw, rng_seed):
         p = [0] * pdim
         p[d] = 1
         operations.refine_knotvector(c, p)
-        return [G.hom_pts_of(c), [[(k - lohi[0]) / L for k in kv] if i == d else None for i, kv in enumerate(G.kvs_of(c))]]
+        return [G.hom_pts_of(c), [[(k - lohis[d][0]) / Ls[d] for k in kv] if i == d else None for i, kv in enumerate(G.kvs_of(c))]]
     rec('refine', refine)
     if pdim <= 2:
         def split():
             fn = operations.split_curve if pdim == 1 else (operations.split_surface_u if d == 0 else operations.split_surface_v)
-            pieces = fn(o, amap(u0, lohi), **ops_kw)
+            pieces = fn(o, amap(u0, lohis[d]), **ops_kw)
             return [G.hom_pts_of(p_) for p_ in pieces]
         rec('split', split)
 
@@ -197,12 +199,18 @@ def check_config(case, ctx):
         V = queries(v2, sd, prms, (0.0, 1.0), {}, qseed)
         compare(V, 'evaluator2', 'evaluator2')
     # ---- un-normalised knot vectors over an affine image of the range -----------------------------------------------------------------
-    for lohi in rng.sample([(0.0, 1.0), (2.0, 5.0), (-3.0, 7.5), (10.0, 10.5)], 2):
-        ctx.tag('range:%r' % (list(lohi),))
+    ranges = [(0.0, 1.0), (2.0, 5.0), (-3.0, 7.5), (10.0, 10.5)]
+    for rep in range(2):
+        # the same range in every direction, or a different range per direction
+        lohis = [rng.choice(ranges)] * pdim if rep == 0 else [rng.choice(ranges) for _ in range(pdim)]
+        for lohi in lohis:
+            ctx.tag('range:%r' % (list(lohi),))
+        if len(set(lohis)) > 1:
+            ctx.tag('range:per-direction')
         sd3 = dict(sd, span='linear', normalize_kv=False,
-                   kvs=[[amap(k, lohi) for k in kv] for kv in sd['kvs']])
+                   kvs=[[amap(k, lohis[d_]) for k in kv] for d_, kv in enumerate(sd['kvs'])])
         v3 = G.build(sd3)
-        V = queries(v3, sd, prms, lohi, {}, qseed)
+        V = queries(v3, sd, prms, lohis, {}, qseed)
         compare(V, 'normalize_kv-off', 'unnormalized', tol=1e-8)
 
 
